@@ -121,6 +121,30 @@ def pools_of(model, reaction, off) -> list[dict]:
     return out
 
 
+def index_links(model) -> list[dict]:
+    """For every summation index of the aligned amplitude: in how many factors of a term it occurs.  The aligned amplitude is a
+    product of rotation matrices contracted with the amplitude symbol - a chain - so every index links exactly two factors."""
+    from ampform.sympy import PoolSum
+
+    out = []
+    for p in (x for x in sp.preorder_traversal(model.intensity.expression) if isinstance(x, PoolSum)):
+        idx = [i for i, _ in p.indices]
+        nvals = {i: len(v) for i, v in p.indices}
+        worst = {}
+        for term in sp.Add.make_args(p.expression):
+            facs = sp.Mul.make_args(term)
+            for i in idx:
+                n = sum(1 for f in facs if f.has(i))
+                if n:
+                    lo, hi = worst.get(i, (n, n))
+                    worst[i] = (min(lo, n), max(hi, n))
+        for i in idx:
+            lo, hi = worst.get(i, (0, 0))
+            out.append({"index": str(i), "min_uses": lo, "max_uses": hi, "n_values": nvals[i]})
+        break
+    return out
+
+
 def _job(args):
     """Worker: build one model and evaluate it on events and rotated events."""
     spec, alignment, events, rotations, seed, want_pools = args
@@ -135,6 +159,7 @@ def _job(args):
         res = {"ok": 1, "error": ""}
         if want_pools:
             res["pools"] = pools_of(model, reaction, off)
+            res["links"] = index_links(model)
         if events is not None:
             ev = numeric.ModelEvaluator(model, coupling_values(model, seed))
             P = {i + off: np.asarray(p) for i, p in events.items()}
